@@ -175,8 +175,14 @@ func c11Case(rt *rapid.T, rec *vt.Rec) {
 	}
 	n := rapid.IntRange(4, 30).Draw(rt, "steps")
 	for k := 0; k < n; k++ {
-		op := rapid.SampledFrom([]string{"advance", "advance", "advance", "checkin", "checkin", "report", "report", "report", "register", "round"}).Draw(rt, "op")
+		op := rapid.SampledFrom([]string{"advance", "advance", "advance", "checkin", "checkin", "report", "report", "report", "register", "round", "reregisterX"}).Draw(rt, "op")
 		switch op {
+		case "reregisterX":
+			// X itself connects again (after any gap, also after it has gone silent for longer than the window): the peers
+			// it is tracked with stay tracked - they are declared at its next keep-alive, not silently forgotten
+			reg(0)
+			classes["x-reregisters"] = true
+			logf("X registers again")
 		case "advance":
 			d := rapid.SampledFrom(c11Advances).Draw(rt, "advance")
 			time.Sleep(d)
